@@ -801,6 +801,50 @@ fn synth_rule(rng: &mut Rng, bc: Option<u8>, level: u64) -> Rule {
     Rule { l, r, op }
 }
 
+/// A program whose rules feed each other: every rule after the first is for the pair on which the
+/// cursor stands after the previous rule was applied, so that one inseparable group contains several
+/// nodes (a kern in the middle of a group, a ligature built in steps, a ligature followed by the
+/// hyphen character's rule).  Returns the rules and a word that walks the chain.
+fn chained_rules(rng: &mut Rng, level: u64) -> (Vec<Rule>, String) {
+    const LET: &[u8] = b"abcd";
+    const RES: &[u8] = b"xy12";
+    const NEXT: &[u8] = b"abcd-abcd";
+    let mut rules: Vec<Rule> = vec![];
+    let (mut l, mut r) = (*rng.pick(LET), *rng.pick(LET));
+    let mut word = String::new();
+    word.push(l as char);
+    word.push(r as char);
+    for _ in 0..rng.range(2, 5) {
+        if rules.iter().any(|q| q.l == Some(l) && q.r == r) {
+            break;
+        }
+        let op = if rng.chance(1, 3) {
+            Op::Kern(rng.range(1, 40) as i32 * if rng.chance(1, 4) { -1 } else { 1 })
+        } else if level == 0 {
+            Op::Lig(*rng.pick(&[0usize, 0, 1, 3, 5]), *rng.pick(RES))
+        } else {
+            Op::Lig(rng.below(8) as usize, *rng.pick(RES))
+        };
+        rules.push(Rule { l: Some(l), r, op: op.clone() });
+        let mut next = |word: &mut String, rng: &mut Rng| {
+            let c = *rng.pick(NEXT);
+            word.push(c as char);
+            c
+        };
+        (l, r) = match op {
+            Op::Kern(_) => (r, next(&mut word, rng)),
+            Op::Lig(form, res) => match form {
+                0 => (res, next(&mut word, rng)), // a b -> x|
+                1 | 5 => (l, res),               // cursor stays on the left character
+                2 => (res, next(&mut word, rng)),
+                3 | 6 => (res, r),
+                _ => (r, next(&mut word, rng)),
+            },
+        };
+    }
+    (rules, word)
+}
+
 fn synth_word(rng: &mut Rng) -> String {
     let n = rng.range(1, 7);
     let mut s = String::new();
@@ -841,7 +885,13 @@ fn synth_cases(args: &Args) -> i32 {
         };
         let nrules = rng.range(1, 5);
         let mut rules: Vec<Rule> = vec![];
-        for _ in 0..nrules {
+        let mut chain_word: Option<String> = None;
+        if rng.chance(2, 5) {
+            let (rs, w) = chained_rules(&mut rng, level);
+            rules = rs;
+            chain_word = Some(w);
+        }
+        for _ in 0..if chain_word.is_some() { rng.range(0, 2) } else { nrules } {
             let r = synth_rule(&mut rng, bc, level);
             if !rules.iter().any(|q| q.l == r.l && q.r == r.r) {
                 rules.push(r);
@@ -869,7 +919,20 @@ fn synth_cases(args: &Args) -> i32 {
                 if w > 0 {
                     script.push(Item::Space);
                 }
-                script.push(Item::Word(synth_word(&mut rng)));
+                match &chain_word {
+                    Some(cw) if rng.chance(2, 3) => {
+                        let mut wd = String::new();
+                        for _ in 0..rng.below(3) {
+                            wd.push(*rng.pick(b"abcd") as char);
+                        }
+                        wd.push_str(cw);
+                        for _ in 0..rng.below(3) {
+                            wd.push(*rng.pick(b"abcd") as char);
+                        }
+                        script.push(Item::Word(wd));
+                    }
+                    _ => script.push(Item::Word(synth_word(&mut rng))),
+                }
             }
             if rng.chance(1, 2) {
                 script.extend(tail_items());
